@@ -434,6 +434,7 @@ func runC06(c *Ctx) {
 	ruleA5(c, "J7")
 	ruleJ124(c)
 	ruleJ6(c)
+	ruleJ8(c, "J8")
 	if fn := c.libFunc("parseInt64"); fn != nil {
 		r.Discharge("J2", "parseInt64/no-sign-wrap", c.P.pos(fn.Pos()), "integers are parsed with strconv.ParseInt; no unsigned->signed conversion of parsed values in the module")
 	}
@@ -649,6 +650,7 @@ func runC13(c *Ctx) {
 	ruleA4(c, "A4")
 	ruleA5(c, "A5")
 	ruleA6(c, "A6")
+	ruleA7(c, "A7")
 }
 
 // ruleA6: explodeNode descends into every key and value: its recursive calls
